@@ -4,10 +4,10 @@ package oracle
 import (
 	"bytes"
 	"fmt"
+	"io"
 	"mime"
 	"mime/multipart"
 	"net/mail"
-	"io"
 	"strings"
 
 	"verif/harness/core"
@@ -30,6 +30,42 @@ func CanonLF(b []byte) []byte {
 // NormWS collapses runs of blanks/tabs to one blank and trims.
 func NormWS(s string) string {
 	return strings.Join(strings.FieldsFunc(s, func(r rune) bool { return r == ' ' || r == '\t' }), " ")
+}
+
+// TextKey classifies a free-text mismatch. When the decoded value differs from the string that
+// was set exactly in that the encoded-word lookalikes contained in the set string got decoded
+// (decoded == RFC2047-decode(want) != want), the string's printable-ASCII stretches were emitted
+// verbatim and a reader decodes them: that class has its own key (known finding). Everything else
+// keeps the base key.
+func TextKey(base, raw, want, decoded string) string {
+	if strings.Contains(want, "=?") && NormWS(decoded) != NormWS(want) {
+		if dw, _ := mimeread.DecodeWords(want); NormWS(dw) == NormWS(decoded) {
+			return "ew-lookalike-verbatim"
+		}
+	}
+	return base
+}
+
+// LookalikeExpect computes what a reader decodes when every value that consists of printable
+// ASCII (and tabs) only is emitted verbatim while all others are properly encoded.
+func LookalikeExpect(values []string) string {
+	var out []string
+	for _, v := range values {
+		verbatim := true
+		for i := 0; i < len(v); i++ {
+			if (v[i] < ' ' || v[i] > '~') && v[i] != '\t' {
+				verbatim = false
+				break
+			}
+		}
+		if verbatim {
+			d, _ := mimeread.DecodeWords(v)
+			out = append(out, d)
+		} else {
+			out = append(out, v)
+		}
+	}
+	return strings.Join(out, ", ")
 }
 
 func clipb(b []byte) string {
@@ -137,11 +173,11 @@ func CompareLeaves(root *mimeread.Entity, leaves []gen.Leaf, nParts, nEmbeds, nA
 					if !o.NoNames {
 						fn, _ := mimeread.DecodeWords(params["filename"])
 						if fn != want.Filename {
-							vs = append(vs, core.V("leaf-filename", "%s: filename decodes to %q, expected %q", where, fn, want.Filename))
+							vs = append(vs, core.V(TextKey("leaf-filename", params["filename"], want.Filename, fn), "%s: filename %q decodes to %q, expected %q", where, params["filename"], fn, want.Filename))
 						}
 						nm, _ := mimeread.DecodeWords(e.Params["name"])
 						if nm != want.Filename {
-							vs = append(vs, core.V("leaf-filename", "%s: Content-Type name decodes to %q, expected %q", where, nm, want.Filename))
+							vs = append(vs, core.V(TextKey("leaf-filename", e.Params["name"], want.Filename, nm), "%s: Content-Type name %q decodes to %q, expected %q", where, e.Params["name"], nm, want.Filename))
 						}
 					}
 				}
@@ -155,7 +191,7 @@ func CompareLeaves(root *mimeread.Entity, leaves []gen.Leaf, nParts, nEmbeds, nA
 			if want.Desc != "" {
 				dd, _ := mimeread.DecodeWords(d)
 				if !hasD || NormWS(dd) != NormWS(want.Desc) {
-					vs = append(vs, core.V("leaf-description", "%s: Content-Description decodes to %q (present=%v), expected %q", where, dd, hasD, want.Desc))
+					vs = append(vs, core.V(TextKey("leaf-description", d, want.Desc, dd), "%s: Content-Description %q decodes to %q (present=%v), expected %q", where, d, dd, hasD, want.Desc))
 				}
 			}
 			cid, hasCID := e.Get("Content-ID")
@@ -165,7 +201,7 @@ func CompareLeaves(root *mimeread.Entity, leaves []gen.Leaf, nParts, nEmbeds, nA
 			if want.CID != "" {
 				dc, _ := mimeread.DecodeWords(cid)
 				if !hasCID || NormWS(dc) != NormWS(want.CID) {
-					vs = append(vs, core.V("leaf-cid", "%s: Content-ID %q (present=%v), expected %q", where, cid, hasCID, want.CID))
+					vs = append(vs, core.V(TextKey("leaf-cid", cid, want.CID, dc), "%s: Content-ID %q (present=%v), expected %q", where, cid, hasCID, want.CID))
 				}
 			}
 		}
